@@ -75,6 +75,13 @@ func abs(x int) int {
 	return x
 }
 
+// netStyleError is an injected loader failure that looks like a net.Error: Timeout and Temporary.
+type netStyleError struct{ msg string }
+
+func (e *netStyleError) Error() string   { return e.msg }
+func (e *netStyleError) Timeout() bool   { return true }
+func (e *netStyleError) Temporary() bool { return true }
+
 // Req is one request seen by the loader.
 type Req struct {
 	Seq   int64  `json:"seq"`
@@ -169,6 +176,10 @@ func (s *Store) Loader(log *ReqLog) func(string) (json.RawMessage, error) {
 		}
 		log.Reqs = append(log.Reqs, r)
 		if !served {
+			if abs(f.Arg)%2 == 1 {
+				// the way a network stack reports it: an error that calls itself temporary (a time-out)
+				return nil, &netStyleError{fmt.Sprintf("simulated store: injected %s on %q: i/o timeout", f.Kind, u)}
+			}
 			return nil, fmt.Errorf("simulated store: injected %s on %q", f.Kind, u)
 		}
 		return json.RawMessage(out), nil
